@@ -28,6 +28,7 @@ type LoopSpec struct {
 	Invariants []Clause
 	Decreases  *Clause
 	IterEns    []Clause // "iteration ensures"
+	IterApply  []Clause // "iteration apply": lemma instances assumed at every back edge (old() = state at the loop head)
 }
 
 type Contract struct {
@@ -60,6 +61,7 @@ type Contract struct {
 	Sets      []SetClause // ghost updates performed at return (assumed by callers, nothing to prove in the body)
 	NoPanic   bool
 	conformed bool
+	OpaqueDiv bool // "opaque division": / and % by a non-constant integer divisor are uninterpreted in this function (facts about them come from lemmas only)
 }
 
 type HintClause struct {
@@ -127,7 +129,7 @@ var clauseKeywords = map[string]bool{
 	"func": true, "extern": true, "spec": true, "ghost": true, "lemma": true, "axiom": true,
 	"requires": true, "ensures": true, "assigns": true, "loop": true, "props": true,
 	"trusted": true, "pure": true, "maypanic": true, "replay": true, "strings": true,
-	"fresh": true, "nohavoc": true, "decreases": true, "induct": true, "calls": true, "alias": true, "conforms": true, "sets": true, "at": true, "shared": true,
+	"fresh": true, "nohavoc": true, "opaque": true, "decreases": true, "induct": true, "calls": true, "alias": true, "conforms": true, "sets": true, "at": true, "shared": true,
 }
 
 type rawLine struct {
@@ -520,6 +522,14 @@ func (sp *Specs) load(path string, prefixed bool, pkgPath string) error {
 				}
 				ls.Split = &SplitSpec{Var: fs2[0], Lo: lo, Hi: hi}
 			case "iteration":
+				if strings.HasPrefix(body, "apply ") {
+					c, err := mkClause(strings.TrimSpace(strings.TrimPrefix(body, "apply")))
+					if err != nil {
+						return fail(err)
+					}
+					ls.IterApply = append(ls.IterApply, c)
+					break
+				}
 				body = strings.TrimSpace(strings.TrimPrefix(body, "ensures"))
 				c, err := mkClause(body)
 				if err != nil {
@@ -544,6 +554,12 @@ func (sp *Specs) load(path string, prefixed bool, pkgPath string) error {
 		case "nohavoc":
 			if cur != nil {
 				cur.NoHavoc = true
+			}
+		case "opaque":
+			if cur != nil && strings.TrimSpace(rest) == "division" {
+				cur.OpaqueDiv = true
+			} else {
+				return fail(fmt.Errorf("expected: opaque division"))
 			}
 		case "fresh":
 			if cur != nil {
